@@ -17,7 +17,10 @@ RULE = (
     "Non-trivial = array with both defined and undefined entries, or any field at a width boundary, or a subroutine "
     "payload with >=1 instruction; distinct by (class, field values)"
 )
-ASSUMPTIONS = ["messages are constructed through their public constructors with in-range field values"]
+ASSUMPTIONS = [
+    "messages are constructed through their public constructors with in-range field values",
+    "field widths are those declared on the pinned tree (app/message ids uint32, socket/node ids and integers int32, qubit counts/fidelity uint8), frozen in the check",
+]
 SHARDS = {"quick": 1, "thorough": 16}
 
 
@@ -42,6 +45,11 @@ def all_fields(cls):
     return out
 
 
+# Declared field widths of the messages, frozen from the pinned tree (like C02's opcode table): a change that narrows
+# a field would otherwise silently narrow the generator with it.
+U8, U32, I32 = ctypes.c_uint8, ctypes.c_uint32, ctypes.c_int32
+
+
 def st_message():
     from netqasm.backend import messages as M
     from netqasm.lang import encoding as E
@@ -49,25 +57,25 @@ def st_message():
     strategies = []
     known = {}
 
-    known[M.InitNewAppMessage] = st.fixed_dictionaries({"app_id": st_int_ct(M.APP_ID), "max_qubits": st_int_ct(M.NUM_QUBITS)})
+    known[M.InitNewAppMessage] = st.fixed_dictionaries({"app_id": st_int_ct(U32), "max_qubits": st_int_ct(U8)})
     known[M.OpenEPRSocketMessage] = st.fixed_dictionaries(
         {
-            "app_id": st_int_ct(M.APP_ID),
-            "epr_socket_id": st_int_ct(M.EPR_SOCKET_ID),
-            "remote_node_id": st_int_ct(M.NODE_ID),
-            "remote_epr_socket_id": st_int_ct(M.EPR_SOCKET_ID),
-            "min_fidelity": st_int_ct(M.EPR_FIDELITY),
+            "app_id": st_int_ct(U32),
+            "epr_socket_id": st_int_ct(I32),
+            "remote_node_id": st_int_ct(I32),
+            "remote_epr_socket_id": st_int_ct(I32),
+            "min_fidelity": st_int_ct(U8),
         }
     )
-    known[M.StopAppMessage] = st.fixed_dictionaries({"app_id": st_int_ct(M.APP_ID)})
+    known[M.StopAppMessage] = st.fixed_dictionaries({"app_id": st_int_ct(U32)})
     known[M.SignalMessage] = st.fixed_dictionaries({"signal": st.sampled_from([s.name for s in M.Signal])})
     known[M.SubroutineMessage] = st.sampled_from(list(g.FLAVOURS)).flatmap(lambda f: g.st_subroutine(f, 8)).map(lambda j: {"sub": j})
-    known[M.MsgDoneMessage] = st.fixed_dictionaries({"msg_id": st_int_ct(M.MESSAGE_ID)})
+    known[M.MsgDoneMessage] = st.fixed_dictionaries({"msg_id": st_int_ct(U32)})
     known[M.ErrorMessage] = st.fixed_dictionaries({"err_code": st.sampled_from([e.name for e in M.ErrorCode])})
-    known[M.ReturnRegMessage] = st.fixed_dictionaries({"register": g.st_reg, "value": st_int_ct(E.INTEGER)})
-    val = st.none() | st_int_ct(E.INTEGER)
+    known[M.ReturnRegMessage] = st.fixed_dictionaries({"register": g.st_reg, "value": st_int_ct(I32)})
+    val = st.none() | st_int_ct(I32)
     known[M.ReturnArrayMessage] = st.fixed_dictionaries(
-        {"address": st_int_ct(E.INTEGER), "values": st.lists(val, min_size=0, max_size=64)}
+        {"address": st_int_ct(I32), "values": st.lists(val, min_size=0, max_size=64)}
     )
     for direction, table in (("host", M.MESSAGE_CLASSES), ("return", M.RETURN_MESSAGE_CLASSES)):
         for _t, cls in table.items():
